@@ -1,7 +1,8 @@
 #!/usr/bin/env python3
 """Maintainer tool: resolve an append/append merge conflict in KNOWN_FINDINGS.txt by keeping both sides."""
 import re
-p = '/verif/KNOWN_FINDINGS.txt'
+import os
+p = os.path.join(os.path.dirname(os.path.dirname(os.path.abspath(__file__))), 'KNOWN_FINDINGS.txt')
 s = open(p).read()
 s = re.sub(r'<<<<<<< [^\n]*\n(.*?)=======\n(.*?)>>>>>>> [^\n]*\n', lambda m: m.group(1) + m.group(2), s, flags=re.S)
 seen, out = set(), []
